@@ -32,6 +32,8 @@ CLAIMED = {
          "MIR-driver rules: evaluated constants, interprocedural who-writes dataflow, typestate on the CFG, panic inventory"),
  "C08": ("other", "Precedence of explicit / legacy / type-derived safety by dominance; decision tables of combine (16 rows), primitives and type constructors extracted from MIR by path-sensitive constant propagation over finite domains and compared with the meet lattice; named-type rules per definition kind; memo-cell discipline (no provisional constant in a recursive evaluator; stores only inside a repeat-until-stable loop); generated instance equals an independent greatest-fixpoint evaluation of the IR; generator emits `safe` exactly under the decision.", "4/C08",
          "MIR-driver rules: dominance, decision-table extraction (constant propagation over finite enum domains), memo-cell typestate, IR-joined instance validation"),
+ "C12": ("other", "PARTIAL: the inverse law over value domains (f64 text, instants, integers, uuids) is a library fact and not decided. Decided: writer/reader sibling agreement — impl sets, the two infinity spellings under exactly their tests on both sides, Base64 engine constant and RFC 3339 items on both sides, delegation targets of every macro-generated impl, generated alias impls.", "4/C12",
+         "MIR-driver rules: sibling impl-table agreement, decision tables by control dependence, constant identity"),
 }
 NA = {
  "C11": "Content negotiation quantifies over parsed header lists and numeric q-values; its truth lives in comparator outcomes, not in the shape of the code. The structural clauses in reach are decided under C06/C04; a mirror of this implementation's iterator chain would be a brittle proxy (DESIGN.md section 4/C11).",
